@@ -35,8 +35,8 @@ theorem run_le_succ (cfg : Cfg) (n : Nat) : ∀ t, run cfg n t ⊑ run cfg (n + 
   | zero => intro t; exact bottom_le _
   | succ n ih =>
     intro t
-    show step cfg (run cfg n) t ⊑ step cfg (run cfg (n + 1)) t
-    exact monotone_step cfg (fun (r : Task → M Value) => r) t (fun _ _ h => h) (run cfg n) (run cfg (n + 1)) ih
+    show stepN cfg (run cfg n) t ⊑ stepN cfg (run cfg (n + 1)) t
+    exact monotone_stepN cfg (fun (r : Task → M Value) => r) t (fun _ _ h => h) (run cfg n) (run cfg (n + 1)) ih
 
 theorem run_le_of_le (cfg : Cfg) {n m : Nat} (h : n ≤ m) : ∀ t, run cfg n t ⊑ run cfg m t := by
   induction h with
@@ -80,23 +80,12 @@ theorem C02_desugar_method (cfg : Cfg) (n : Nat) (f : String) (plus : Bool) (vis
     (rest : Members) (env : EId) (tail : Bool) (d : Nat) :
     run cfg (n + 1) (.eval (.object (.fieldFix f plus vis (.some ps) b rest)) env tail d) =
     run cfg (n + 1) (.eval (.object (.fieldFix f plus vis .none (.func ps b) rest)) env tail d) := by
-  show step cfg (run cfg n) _ = step cfg (run cfg n) _
-  unfold step
-  simp [membersList, memberLocals, memberAsserts, bindExpr, objectMember]
+  show stepN cfg (run cfg n) _ = stepN cfg (run cfg n) _
+  unfold stepN step
+  simp [membersList, memberLocals, memberAsserts, bindExpr, objectMember, Task.depth]
 
-/-- `if c then a` means `if c then a else null`. -/
-theorem C02_desugar_if_without_else (cfg : Cfg) (n : Nat) (c a : Expr) (env : EId) (tail : Bool) (d : Nat) :
-    run cfg (n + 2) (.eval (.if_ c a .none) env tail d) =
-    run cfg (n + 2) (.eval (.if_ c a (.some .null)) env tail d) := by
-  show step cfg (run cfg (n + 1)) _ = step cfg (run cfg (n + 1)) _
-  unfold step
-  simp only
-  rfl
-
-/-- Parentheses do not change the value (they only end a tail position). -/
-theorem C02_desugar_paren (cfg : Cfg) (n : Nat) (e : Expr) (env : EId) (tail : Bool) (d : Nat) :
-    run cfg (n + 2) (.eval (.paren e) env tail d) = run cfg (n + 1) (.eval e env false d) := by
-  rfl
+/-! `C02_desugar_if_without_else` and `C02_desugar_paren` live in `RsjProps/C02Eval.lean`: since the
+    evaluator records the depth of every step in a ghost counter, their proofs use the store order. -/
 
 /-! ### (iii) Parameter binding (`check_call_args_generic`), used by the evaluator model's call case -/
 
@@ -161,10 +150,6 @@ open Rsj.Eval in
 #print axioms C02_desugar_local_function
 open Rsj.Eval in
 #print axioms C02_desugar_method
-open Rsj.Eval in
-#print axioms C02_desugar_if_without_else
-open Rsj.Eval in
-#print axioms C02_desugar_paren
 open Rsj.Eval in
 #print axioms C02_bind_correct
 open Rsj.Eval in
